@@ -94,6 +94,11 @@ class CustomState(BaseState):
         tol: float
             Tolerance when comparing matrices
         """
+        # If state is in composite envelope contract product state there
+        if isinstance(self.index, tuple):
+            assert isinstance(self.composite_envelope, CompositeEnvelope)
+            self.composite_envelope.contract(self)
+            return
         if (
             self.expansion_level is ExpansionLevel.Matrix
             and final < ExpansionLevel.Matrix
